@@ -51,7 +51,6 @@ REQUIRED = ['cmp_total', 'cmp_prim', 'divrem_in_domain', 'edge_pairs', 'suites',
 NW = 16
 # primitives: random pairs per worker (default build, CT-multiplication build)
 PRIM = {'quick': (500000, 125000), 'thorough': (30000000, 7500000)}
-CT = ['-DBR_CT_MUL31=1', '-DBR_CT_MUL15=1']
 
 
 def jobs(tier, seed):
@@ -68,9 +67,9 @@ def jobs(tier, seed):
                       ['--seed', seed, '--worker', i, '--nworkers', NW, '--cases', pd],
                       flavour='asan', timeout=to))
     for i in range(NW):
-        js.append(Job('primct%d' % i, 'h_bigint_prim',
+        js.append(Job('primct%d' % i, 'h_bigint_primct',
                       ['--seed', seed, '--worker', i, '--nworkers', NW, '--cases', pc, '--stream', 1],
-                      flavour='asan', extra_cflags=CT, timeout=to))
+                      flavour='asan', extra_src=['h_bigint_prim.c'], extra_cflags=['-DPRIM_EXTRA_TU'], timeout=to))
     return js
 
 
